@@ -1318,7 +1318,7 @@ pub fn run(o: &Opts, rec: &mut Recorder) {
             exec(&format!("serial {a} {b}"), rec);
         }
     }
-    for _ in 0..o.n(300, 20_000) {
+    for _ in 0..o.n(300, 100_000) {
         let a = r.next() as u32;
         let x = r.next() as u32;
         let d = *r.pick(&[0u32, 1, 0x7FFF_FFFF, 0x8000_0000, 0x8000_0001, 0xFFFF_FFFF, x]);
@@ -1340,7 +1340,7 @@ pub fn run(o: &Opts, rec: &mut Recorder) {
         exec(&format!("attl {} {} {} {}", v(&mut r), v(&mut r), v(&mut r), v(&mut r)), rec);
     }
     // pure part
-    for _ in 0..o.n(1500, 40_000) {
+    for _ in 0..o.n(1500, 150_000) {
         let mut rr = r.fork();
         let g = catch(move || {
             let mut b = gen_base(&mut rr);
@@ -1366,7 +1366,7 @@ pub fn run(o: &Opts, rec: &mut Recorder) {
             exec(&l, rec);
         }
     }
-    for i in 0..o.n(250, 6_000) {
+    for i in 0..o.n(250, 20_000) {
         let mut rr = r.fork();
         match catch(move || gen_history(&mut rr, i as u64 % 7)) {
             Ok(Some(h)) => {
